@@ -73,7 +73,11 @@ ValuePool == <<
     V("<23:30 - ?", "open", -30, 0, "<23:30 - ?"),
     V("4:00pm - ?", "open", 960, 0, "4:00pm - ?"),
     V("09:00-??", "open", 540, 0, "9:00-??"),
-    VL("9:00 -?", "open", 540, 0, "9:00 - ?")
+    VL("9:00 -?", "open", 540, 0, "9:00 - ?"),
+    (* each time keeps its own clock notation *)
+    V("8:30 - 1:15pm", "range", 510, 795, "8:30 - 1:15pm"),
+    V("2:00pm-18:45", "range", 840, 1125, "2:00pm-18:45"),
+    V("<11:00pm - 0:30", "range", -60, 30, "<11:00pm - 0:30")
 >>
 
 (* entry summaries: sep = text between value and first summary line ("" = none) *)
@@ -92,13 +96,16 @@ SumPool == <<
     S(" ", <<"- ?">>),
     S(" ", <<"stray carriage return" \o CR, "and" \o CR \o CR>>),   \* CR inside the text (before a CRLF ending)
     S(" ", <<"caf" \o SymFF>>),                       \* a Latin-1 byte: invalid UTF-8 (opaque symbol)
-    S(" ", <<"x" \o SymE4 \o SymB8, SymFF \o " y " \o SymNUL>>)   \* truncated multi-byte sequence, NUL
+    S(" ", <<"x" \o SymE4 \o SymB8, SymFF \o " y " \o SymNUL>>),  \* truncated multi-byte sequence, NUL
+    S(" ", <<"Lunch  ">>),                            \* blanks at the end of the text belong to it
+    S(" ", <<"two", "lines" \o TAB>>),
+    S(" ", <<"nbsp" \o NBSP>>)
 >>
 
 RecSumPool == <<
     <<>>,
     <<"Summary">>,
-    <<"Line 1", "Line 2 #tag">>,
+    <<"Line 1 100%", "Line 2 #tag %s">>,
     <<"8h">>,
     <<"日 ä ß #読む">>,
     <<"#a #b=c #d=\"e f\" text">>
@@ -182,7 +189,13 @@ BadValues == <<"8:60 - 9:00", "25:00 - 26:00", "8:00 - 24:01", "9:00 - 8:00", "8
                "8:00 - ?>", "8:00 - <?", "8:00 -- 9:00", "8:00 9:00", "8:00 -", "- 9:00", "1h60m", "h",
                "8.5h", "8:00am - 13:00pm", "1x", "+", "8:00 - 9:00>>", "8:00> - 8:00", "24:00> - ?",
                "8:00 - ?x", "0:00am - 1:00am", "8:0 - 9:00", "8:00 - 9", "?", "? - 9:00", "8:00\t- 9:00",
-               "8h!", "1m1h", "--1h", "12:00pm - 12:00am">>
+               "8h!", "1m1h", "--1h", "12:00pm - 12:00am",
+               "8:60 - 9:00 50% done", "1x 20%% of %d %",
+               (* only U+0020 may surround the dash *)
+               "8:00 -\t9:00", "8:00-\t9:00", "8:00 \t- 9:00", "8:00 - \t9:00", "14:00 -\t?", "14:00\t-?",
+               "8:00 -" \o NBSP \o "9:00", "8:00" \o NBSP \o "- 9:00", "8:00 -" \o NBSP \o "?",
+               (* only space or tab ends a value; other blank characters belong to the token *)
+               "1h" \o IDSP \o "text", "8:00 - 9:00" \o NBSP \o "work", "8:00 - ?" \o NBSP \o "work", "-30m" \o NBSP>>
 BadValueRule(v) == IF v \in {"9:00 - 8:00", "8:00 - 7:59", "0:00 - <23:00", "8:00> - 8:00", "12:00pm - 12:00am"}
                    THEN "range-order" ELSE "entry"
 
@@ -202,6 +215,9 @@ MutationsAt(d, ls, i) ==
     CASE l.k = "head" ->
             {Mut(ReplaceAt(ls, i, BadDates[j] \o HeadRest(l.text)), i, "date") : j \in 1..Len(BadDates)}
             \cup {Mut(ReplaceAt(ls, i, Take(l.text, 10) \o " " \o BadShoulds[j]), i, "headline") : j \in 1..Len(BadShoulds)}
+            \cup {Mut(ReplaceAt(ls, i, Take(l.text, 10) \o NBSP \o "(8h!)"), i, "date"),
+                  Mut(ReplaceAt(ls, i, Take(l.text, 10) \o IDSP), i, "date"),
+                  Mut(ReplaceAt(ls, i, Take(l.text, 10) \o " (8h!" \o NBSP \o ")"), i, "headline")}
             \cup {Mut(ReplaceAt(ls, i, " " \o l.text), i, "headline-indented"),
                   Mut(ReplaceAt(ls, i, "    " \o l.text), i, "headline-indented"),
                   Mut(ReplaceAt(ls, i, TAB \o l.text), i, "headline-indented"),
